@@ -590,6 +590,7 @@ inline Err Machine::exec_extended(uint8_t c) {
     case OP_CAT: {
         if (!need(2)) return Err::INVALID_STACK_OPERATION;
         bytes r = cat(top(-2), top(-1));
+        if (r.size() > MAX_ELEM) return Err::PUSH_SIZE;     // the result is a stack element
         pop(); pop(); stack.push_back(r);
         return Err::OK;
     }
@@ -637,10 +638,10 @@ inline Err Machine::exec_extended(uint8_t c) {
         if (!need(2)) return Err::INVALID_STACK_OPERATION;
         int64_t a = numtop(-2, 5), b = numtop(-1, 5), r = 0;
         switch (c) {
-        case OP_MUL: r = int64_t(__int128(a) * __int128(b)); break;
+        case OP_MUL: { __int128 p = __int128(a) * __int128(b); if (p > __int128(INT64_MAX) || p < __int128(INT64_MIN)) return Err::UNKNOWN_ERROR; r = int64_t(p); break; }   // no denoted value beyond 64 bits
         case OP_DIV: if (b == 0) return Err::UNKNOWN_ERROR; r = a / b; break;
         case OP_MOD: if (b == 0) return Err::UNKNOWN_ERROR; r = a % b; break;
-        case OP_LSHIFT: if (b < 0 || b > 63) return Err::UNKNOWN_ERROR; r = int64_t(uint64_t(a) << b); break;
+        case OP_LSHIFT: if (a < 0 || b < 0 || b > 62 || (a != 0 && (a >> (63 - b)) != 0)) return Err::UNKNOWN_ERROR; r = int64_t(uint64_t(a) << b); break;   // the result must fit 63 bits
         case OP_RSHIFT: if (b < 0 || b > 63) return Err::UNKNOWN_ERROR; r = a >> b; break;
         }
         pop(); pop(); stack.push_back(num_encode(r));
